@@ -285,6 +285,8 @@ def build(cfg):
         s = event.Source(trigger=MODES[md], path=(f"s{k}",))
         em.add(s); srcs.append(s)
     trig = MODES[cfg["trigger"]] if cfg["trigger"] in (0, 1, 2) else "sideways"
+    if cfg["trigger"] in (0, 1, 2) and len(cfg["modes"]) % 2 == 1:
+        trig = event.Source.Trigger(trig)          # the enum spelling of the same parameter
     try:
         mon = EventMonitor(em, trigger=trig, data_width=pyarg(cfg["dw"]), alignment=pyarg(cfg["al"]))
     except (ValueError, TypeError, KeyError, AssertionError) as e:
